@@ -197,9 +197,8 @@ pub fn apply_module_pre(base: &[u8], pre: &[PreEdit], plan: &[Inj], n: usize) ->
             let dir = format!("{}/out/run", std::env::var("VERIF_DIR").unwrap_or_else(|_| "/verif".into()));
             let _ = std::fs::create_dir_all(&dir);
             let path = format!("{}/emit-{}.wasm", dir, std::process::id());
-            let r = catch(|| m.emit_wasm(&path).map(|_| std::fs::read(&path).unwrap_or_default()).unwrap_or_default());
-            let _ = std::fs::remove_file(&path);
-            r
+            // (not removed afterwards: a later emission has to replace it completely)
+            catch(|| m.emit_wasm(&path).map(|_| std::fs::read(&path).unwrap_or_default()).unwrap_or_default())
         } else {
             catch(|| m.encode())
         };
